@@ -100,11 +100,29 @@ func solveOne(o *Obligation, dir string, idx int, quickSec, fullSec int) {
 			os.WriteFile(file, []byte(o.smtFull), 0o644)
 		}
 		rctx, cancel := context.WithCancel(ctx)
-		ch := make(chan solveResult, len(solvers)+2)
+		ch := make(chan solveResult, len(solvers)+6)
 		n := len(solvers)
 		for _, s := range solvers {
 			s := s
 			go func() { ch <- runSolver(rctx, s, file, fullSec) }()
+		}
+		if o.smtNoLazy != "" {
+			// weaker variant without the lazily included axioms: only an unsat answer counts
+			nlFile := strings.TrimSuffix(file, ".smt2") + ".nl.smt2"
+			os.WriteFile(nlFile, []byte(o.smtNoLazy), 0o644)
+			defer os.Remove(nlFile)
+			for _, s := range []solverSpec{solvers[0], solvers[1]} {
+				s := s
+				n++
+				go func() {
+					r := runSolver(rctx, s, nlFile, fullSec)
+					if r.Result != "unsat" {
+						r.Result = "unknown"
+					}
+					r.Solver += "(without-row-axioms)"
+					ch <- r
+				}()
+			}
 		}
 		if o.smtNoQ != "" {
 			// weaker variant without quantified assumptions: only an unsat answer counts
@@ -170,11 +188,20 @@ func firstLines(s string, n int) string {
 
 func solveAll(obls []*Obligation, dir string, workers, quickSec, fullSec int) {
 	for _, o := range obls {
+		o.noLazy = true
 		o.smtText = o.SMT(true)
+		var fullNoLazy string
+		if !o.Cover {
+			fullNoLazy = o.SMTFull(true)
+		}
+		o.noLazy = false
 		if !o.Cover {
 			full := o.SMTFull(true)
 			if full != o.smtText {
 				o.smtFull = full
+			}
+			if fullNoLazy != full && fullNoLazy != o.smtText {
+				o.smtNoLazy = fullNoLazy
 			}
 		}
 		if !o.Cover && (strings.Contains(o.smtText, ":pattern") || strings.Contains(o.smtFull, ":pattern")) {
